@@ -15,6 +15,7 @@ package main
 import (
 	"context"
 	"encoding/hex"
+	"errors"
 	"flag"
 	"fmt"
 	"os"
@@ -235,6 +236,7 @@ func runCase(req string) (obs string) {
 	ctx, cancel := context.WithCancel(context.Background())
 	defer cancel()
 	var hs []*hstate
+	var gone []int // handlers that were stopped: their numbers (and names) are not used again
 	apps := map[int]*appSub{}
 	// every registration is made from a slice the "application" owns, has spare capacity and keeps (`xs...` passes the
 	// slice itself, not a copy); the X token edits them all afterwards
@@ -340,8 +342,17 @@ func runCase(req string) (obs string) {
 				case <-time.After(settleTimeout):
 					return "timeout-running"
 				}
-			} else if err := r.RunHandlers(ctx); err != nil {
-				return "runhandlers-error"
+			} else {
+				// RunHandlers is idempotent by contract: when it reports an error (a decorator failed) it is called again
+				var err error
+				for attempt := 0; attempt < 16; attempt++ { // every failing decorator fails once
+					if err = r.RunHandlers(ctx); err == nil {
+						break
+					}
+				}
+				if err != nil {
+					return "runhandlers-error"
+				}
 			}
 			var entries []string
 			for _, h := range hs {
@@ -488,6 +499,11 @@ func runCase(req string) (obs string) {
 			if err != nil || (kind != 'p' && kind != 'n') || find(hi) != nil {
 				return "bad-op"
 			}
+			for _, g := range gone {
+				if g == hi {
+					return "bad-op"
+				}
+			}
 			name := "h" + strconv.Itoa(hi)
 			if named { // explicit handler name: hex of its bytes, "-" = the empty name
 				name = ""
@@ -547,19 +563,83 @@ func runCase(req string) (obs string) {
 				})
 			}
 			hs = append(hs, h)
+		case strings.HasPrefix(t, "T"):
+			// handler.Stop(), wait until it has stopped (it is removed from the router then)
+			hi, err := strconv.Atoi(t[1:])
+			h := find(hi)
+			if err != nil || h == nil {
+				return "bad-op"
+			}
+			alive := 0
+			for _, o := range hs {
+				select {
+				case <-o.h.Started():
+					alive++
+				default:
+				}
+			}
+			select {
+			case <-h.h.Started():
+			default:
+				return "bad-op" // Stop panics on a handler that is not started
+			}
+			if alive < 2 {
+				return "bad-op" // the router closes itself when its last handler stops
+			}
+			h.h.Stop()
+			select {
+			case <-h.h.Stopped():
+			case <-time.After(settleTimeout):
+				return "timeout-stop"
+			}
+			for k, o := range hs {
+				if o == h {
+					hs = append(hs[:k:k], hs[k+1:]...)
+					break
+				}
+			}
+			gone = append(gone, hi)
 		case strings.HasPrefix(t, "P"):
-			is, ok := ids(t[1:])
+			failing := strings.HasSuffix(t, "!")
+			is, ok := ids(strings.TrimSuffix(t[1:], "!"))
 			if !ok {
 				return "bad-op"
 			}
 			ds := pubSlice(is)
+			if failing { // the last decorator of the call returns an error the first time it is applied
+				d, failed, keep := ds[len(ds)-1], false, is[len(is)-1]%2 == 0
+				ds[len(ds)-1] = func(p message.Publisher) (message.Publisher, error) {
+					if !failed {
+						failed = true
+						if keep { // some decorators hand back what they were given together with the error, most return nil
+							return p, errors.New("publisher decorator not ready yet")
+						}
+						return nil, errors.New("publisher decorator not ready yet")
+					}
+					return d(p)
+				}
+			}
 			r.AddPublisherDecorators(ds...)
 		case strings.HasPrefix(t, "S"):
-			is, ok := ids(t[1:])
+			failing := strings.HasSuffix(t, "!")
+			is, ok := ids(strings.TrimSuffix(t[1:], "!"))
 			if !ok {
 				return "bad-op"
 			}
 			ds := subSlice(is)
+			if failing {
+				d, failed, keep := ds[len(ds)-1], false, is[len(is)-1]%2 == 0
+				ds[len(ds)-1] = func(s message.Subscriber) (message.Subscriber, error) {
+					if !failed {
+						failed = true
+						if keep {
+							return s, errors.New("subscriber decorator not ready yet")
+						}
+						return nil, errors.New("subscriber decorator not ready yet")
+					}
+					return d(s)
+				}
+			}
 			r.AddSubscriberDecorators(ds...)
 		default:
 			return "bad-op"
@@ -683,7 +763,16 @@ func randomProg(rng *wh.Rng, maxLen int) string {
 	nDecP, nDecS := 0, 0
 	sharedSubs := rng.Intn(4) == 0
 	editing := rng.Intn(3) == 0 // the application reuses the slices it registered from
-	plugin := func() string {   // a RouterPlugin registering 1..3 things when Run executes it
+	// decorators that fail the first time they are applied (only after Run: a failing Run cannot be retried).
+	// 1: publisher decorators may fail; 2: subscriber decorators may fail - then the program has no publisher decorators
+	// (in the code as it is a failed decorateHandlerSubscriber leaves the already decorated publisher behind)
+	failMode := rng.Intn(5)
+	if failMode == 2 {
+		nDecP = 5
+	}
+	ranOnce := false
+	var startedList []int
+	plugin := func() string { // a RouterPlugin registering 1..3 things when Run executes it
 		var items []string
 		for k, n := 0, 1+rng.Intn(3); k < n; k++ {
 			switch rng.Intn(3) {
@@ -720,7 +809,7 @@ func randomProg(rng *wh.Rng, maxLen int) string {
 			case k < 6 && len(addedList) > 0:
 				h := addedList[rng.Intn(len(addedList))]
 				toks = append(toks, "H"+strconv.Itoa(h)+":"+idList(&next, 1+rng.Intn(3)/2))
-			case k < 8 && len(addedList) < nH:
+			case k < 8 && len(added) < nH: // numbers of stopped handlers stay used
 				h := rng.Intn(nH)
 				for added[h] {
 					h = (h + 1) % nH
@@ -754,14 +843,22 @@ func randomProg(rng *wh.Rng, maxLen int) string {
 					c = 1
 				}
 				nDecP += c
-				toks = append(toks, "P"+idList(&next, c))
+				t := "P" + idList(&next, c)
+				if failMode == 1 && ranOnce && rng.Intn(2) == 0 {
+					t += "!"
+				}
+				toks = append(toks, t)
 			case k == 9 && nDecS < 5:
 				c := 1 + rng.Intn(2)
 				if nDecS+c > 5 {
 					c = 1
 				}
 				nDecS += c
-				toks = append(toks, "S"+idList(&next, c))
+				t := "S" + idList(&next, c)
+				if failMode == 2 && ranOnce && rng.Intn(2) == 0 {
+					t += "!"
+				}
+				toks = append(toks, t)
 			default:
 				toks = append(toks, "R"+idList(&next, 1))
 			}
@@ -773,6 +870,24 @@ func randomProg(rng *wh.Rng, maxLen int) string {
 			toks = append(toks, "X")
 		}
 		toks = append(toks, "RUN")
+		ranOnce = true
+		startedList = append([]int{}, addedList...)
+		// sometimes one of the running handlers is stopped (never the last one); handlers added afterwards are handlers
+		// of their own
+		if ph < phases-1 && len(startedList) >= 2 && rng.Intn(3) == 0 {
+			k := rng.Intn(len(startedList))
+			h := startedList[k]
+			toks = append(toks, "T"+strconv.Itoa(h))
+			for x, y := range addedList {
+				if y == h {
+					addedList = append(addedList[:x:x], addedList[x+1:]...)
+					break
+				}
+			}
+			if nH < 6 {
+				nH++ // room for a new handler
+			}
+		}
 	}
 	return "chain " + strings.Join(toks, " ")
 }
@@ -814,6 +929,26 @@ func callerEditCases(emit func(string, string)) {
 	}
 	for _, p := range progs {
 		emit("chain "+p, "caller_edits_its_slices")
+	}
+}
+
+// decorators that return an error the first time they are applied to a handler added to the running router (RunHandlers
+// reports the error, the caller calls it again), the failing one not being the first one applied; and handlers that stop
+// while others keep running, with new handlers added afterwards
+func failAndStopCases(emit func(string, string)) {
+	progs := []string{
+		"A0p RUN P1 P2! P3 A1p RUN",
+		"P1 A0p RUN P2,3! P4 A1p A2n RUN RUN",
+		"A0p RUN P1! A1p RUN",
+		"A0n RUN S1 S2! S3 A1n RUN",
+		"S1 A0n RUN S2,3! A1n A2n RUN",
+		"R1 A0p H0:2 A1n H1:3 RUN T0 A2n H2:4 RUN",
+		"A0p H0:1 A1p H1:2 A2p H2:3 RUN T1 A3p H3:4 R5 RUN T0 A4n H4:6 RUN",
+		"R1 A0n A1n H1:2,3 RUN T0 A2p RUN H2:4 A3p H3:5 RUN",
+		"A0p@1 A1p@1 H1:1 S2 RUN T0 A2p@1 H2:3 RUN",
+	}
+	for _, p := range progs {
+		emit("chain "+p, "failing_decorator_or_stopped_handler")
 	}
 }
 
@@ -898,6 +1033,7 @@ type job struct {
 }
 
 func main() {
+	dump := flag.String("dump-requests", "", "debugging: write the generated requests to this file and exit")
 	worker := flag.String("worker", "", "internal: run the requests of this file in this process (child of the supervisor)")
 	a := wh.ParseArgs()
 	if *worker != "" {
@@ -933,6 +1069,7 @@ func main() {
 	sharedSubCases(emit)
 	pluginCases(emit)
 	callerEditCases(emit)
+	failAndStopCases(emit)
 	rng := wh.NewRng(a.Seed)
 	for i := 0; i < nRandom; i++ {
 		l := randLen
@@ -948,6 +1085,10 @@ func main() {
 	reqs := make([]string, len(jobs))
 	for i, j := range jobs {
 		reqs[i] = j.req
+	}
+	if *dump != "" {
+		os.WriteFile(*dump, []byte(strings.Join(reqs, "\n")+"\n"), 0o644)
+		return
 	}
 	res := runJobs(reqs) // in child processes, see supervise.go
 	skipped := 0
@@ -967,6 +1108,8 @@ func main() {
 				runs++
 			case t == "X":
 				out.Count("ops.caller_edits_slices")
+			case t[0] == 'T':
+				out.Count("ops.handler_stopped")
 			case t[0] == 'R':
 				out.Count("ops.routerMw")
 			case t[0] == 'H':
@@ -992,8 +1135,14 @@ func main() {
 				out.Add("ops.concurrent_calls", strings.Count(t, "H"))
 			case t[0] == 'P':
 				out.Count("ops.pubDec")
+				if strings.HasSuffix(t, "!") {
+					out.Count("ops.decorator_failing_once")
+				}
 			case t[0] == 'S':
 				out.Count("ops.subDec")
+				if strings.HasSuffix(t, "!") {
+					out.Count("ops.decorator_failing_once")
+				}
 			}
 		}
 		out.Count("runs." + strconv.Itoa(runs))
